@@ -297,6 +297,14 @@ impl Prop for C08Prop {
         let mut l = build(rng, hist, fe, class, with_cut, tier);
         finish_ops(&mut l, hist, rng);
         l.extra_polls = rng.below(3);
+        if fe == Fe::RdIo && rng.chance(1, 3) {
+            // interrupted system calls while the noise / the frames arrive: invisible by io::Read's contract
+            let len = build_stream(&l.segs).stream.len();
+            let k = rng.range(1, 4);
+            let mut f = gen::gen_src_faults(rng, len, k, &[SrcFault::Interrupted]);
+            l.src.append(&mut f);
+            l.src.sort_by_key(|(p, _)| *p);
+        }
         Scenario::Link(l)
     }
 
